@@ -34,14 +34,20 @@ def main():
                 except Exception:
                     ex = short(e[0], 60)
                 break
+        if m.get("neutralised"):
+            rows.append((d.name, m["property"], short(m.get("summary", ""), 150), short(m.get("needs", ""), 140),
+                         "(no longer a violation)", short(m["neutralised"], 110), ""))
+            continue
         rows.append((d.name, m["property"], short(m.get("summary", ""), 150), short(m.get("needs", ""), 140),
                      ", ".join(caught) if caught else "**missed**", short(ex, 70), "yes" if first_missed else ""))
     out = ["| id | what the change does | what it needs to manifest | caught by | first disagreement reported | caught only after strengthening |", "|---|---|---|---|---|---|"]
     for r in rows:
         out.append(f"| {r[0]} | {r[2]} | {r[3]} | {r[4]} | {r[5]} | {r[6]} |")
-    n, hit = len(rows), sum(1 for r in rows if r[4] != "**missed**")
+    live = [r for r in rows if r[4] != "(no longer a violation)"]
+    n, hit = len(live), sum(1 for r in live if r[4] != "**missed**")
     out.append("")
-    out.append(f"{hit} of {n} seeded changes are reported by the check of their own property on the current machinery.")
+    out.append(f"{hit} of {n} seeded changes are reported by the check of their own property on the current machinery"
+               + (f" ({len(rows) - n} further changes were made harmless by later repairs of the library and are listed for the record)." if len(rows) != n else "."))
     text = "\n".join(out)
     p = ROOT / "DESIGN.md"
     s = p.read_text()
